@@ -312,8 +312,9 @@ MORE = {
                   'out-of-band UPDATEs: the nesting invariant holds over the extended histories (C15_inst_nesting_inv_partial, C15_inst_history_extends_old, C15_inst_reaches_old); '
                   'since repair 47d20cb sync()/expire() of an object refresh its own and every inherited level, so that every attribute reads the stored value through every '
                   'entry class (C15_refresh_own_level_partial unconditionally, C15_refresh_inherited_partial and C15_refresh_partial when no second instance of an ancestor row '
-                  'sits in the identity map; C15_refresh_refuted is that open finding).',
-             note=' lazyUpdate hierarchies are not modelled (tried by script only); the twin of an expired ancestor instance (expire() called on obj._parent) is an open finding.'),
+                  'sits in the identity map; C15_refresh_refuted is that open finding); on the HELD object, with nothing fetched, sync()/expire() on any level make every read of an own or '
+                  'inherited attribute through any level return the stored value, from every state (C15_held_refresh).',
+             note=' lazyUpdate hierarchies are judged by the oracle only (a stream on a lazy three-level fixture; not in the Coq model); the twin of an expired ancestor instance (expire() called on obj._parent) is an open finding.'),
  'C19': dict(text=' The flush and discard points of a lazy instance are operations of the model: pickling and sync() deliver exactly what syncUpdate() delivers, expire() delivers '
                   'nothing, writes nothing and drops the queue for good, later operations still deliver theirs (C19_pickle_is_syncUpdate, C19_sync_is_syncUpdate, '
                   'C19_flush_exactly_once_in_order, C19_expire_silent, C19_expired_queue_never_written, C19_after_expire_in_order); updates of instances of an inheritance '
@@ -341,7 +342,8 @@ MORE = {
  'C14': dict(text=' Every schema method that takes connection= (createTable, dropTable, createJoinTables, dropJoinTables, createIndexes, tableExists, clearTable and the three '
                   '...SQL renderers) is modelled over TWO databases (Model/DdlConn.v): the addressed database makes exactly the single-database step and every other '
                   'database is untouched, for every history (C14_connection_step, C14_connection_projection, C14_connection_frame, C14_connection_arg_wins, '
-                  'C14_connection_idempotent_create/_drop, C14_connection_exists).'),
+                  'C14_connection_idempotent_create/_drop, C14_connection_exists); runtime addColumn/delColumn with changeSchema=True and connection= change the addressed database only '
+                  '(C14_connection_evolution_step, C14_connection_evolution_frame).'),
  'C20': dict(text=' Destroying a master or a version, Version.nextVersion() and getChangedFields() are operations of the model: versions of a destroyed master stay and no later '
                   'master can see them (ids are never reused), only destroySelf of a version removes one, the next version / changed fields are what the history says, on '
                   'every connection since repair 7323516 (C20_destroy_master_keeps_versions, C20_new_master_never_sees_old_versions, C20_destroy_version, '
